@@ -9,6 +9,7 @@ CONSTANTS
   MaxBatch = 2
   MaxEpoch = 3
   MaxHit = 1
+  MaxRecCrash = 0
   CapSet = {2, 3}
   RetSet = {0, 2, 3}
   CompactSet = {FALSE, TRUE}
